@@ -19,6 +19,17 @@ ExpStmts2 == {[k |-> "label", n |-> "a"], [k |-> "label", n |-> "b"], [k |-> "ex
 ExpStmts3 == ExpStmts2 \cup {[k |-> "label", n |-> "c"], [k |-> "export", n |-> "c"]}
 Perms(S, n) == {p \in [1..n -> S] : \A i, j \in 1..n : i < j => p[i] # p[j]}
 ExportProgs == Perms(ExpStmts2, 4) \cup {p \in Perms(ExpStmts3, 6) : p[1].k = "label"}
+\* two blocks, each with a label of its own and a use of it, with and without a global label of the first block's name:
+\* rendered with names of very different lengths behind fillers that end at a pool boundary, the symbol table stores the
+\* second block's label in front of the first block's (first fit): its order is not the order of definition
+Lb(x) == [k |-> "label", n |-> x]
+Us(x) == [k |-> "use", n |-> x]
+Blk(op, x) == <<op[1], Lb(x), Us(x), op[2]>>
+Ops == {<<[k |-> "scope"], [k |-> "ends"]>>, <<[k |-> "func", n |-> "f"], [k |-> "endf"]>>}
+PoolProgs == {pre \o Blk(o1, "a") \o Blk(<<[k |-> "scope"], [k |-> "ends"]>>, "b") \o post :
+                pre \in {<<>>, <<Lb("a")>>}, o1 \in Ops, post \in {<<>>, <<Us("a")>>}}
+             \cup {pre \o <<o1[1], Us("a"), Lb("a"), o1[2]>> \o Blk(<<[k |-> "scope"], [k |-> "ends"]>>, "b") : pre \in {<<>>, <<Lb("a")>>}, o1 \in Ops}
+EmitPool == (prog = <<>>) => PrintT("POOL " \o ToJson(PoolProgs))
 Init == prog = <<>> \/ (MaxDeep > 0 /\ prog \in DeepProgs \cup ExportProgs)
 Next == Len(prog) < MaxLen /\ (prog = <<>> \/ prog \notin DeepProgs \cup ExportProgs) /\ \E s \in Alphabet : prog' = Append(prog, s)
 Spec == Init /\ [][Next]_prog
